@@ -73,10 +73,14 @@ type SignalCase struct {
 	// struct value.
 	SvcTypes []int `json:"svc_types,omitempty"`
 	// CancelledParent: Handle is called with an already cancelled context.
-	CancelledParent bool  `json:"cancelled_parent,omitempty"`
-	Pre             []int `json:"pre"`  // non-shutdown signals before the shutdown signal
-	Shut            int   `json:"shut"` // the shutdown signal
-	Post            []int `json:"post"` // signals after it
+	CancelledParent bool `json:"cancelled_parent,omitempty"`
+	// NotifierEdits: what the injected SignalNotifier does to the signal list
+	// it is given (its own parameter): 0 only reads it, 1 filters it in place
+	// (drops SIGQUIT), 2 clears it, 3 overwrites it with SIGHUP.
+	NotifierEdits int   `json:"notifier_edits,omitempty"`
+	Pre           []int `json:"pre"`  // non-shutdown signals before the shutdown signal
+	Shut          int   `json:"shut"` // the shutdown signal
+	Post          []int `json:"post"` // signals after it
 }
 
 var sigTable = map[int]os.Signal{
@@ -85,14 +89,31 @@ var sigTable = map[int]os.Signal{
 }
 
 type notifier struct {
-	mu sync.Mutex
-	c  chan<- os.Signal
+	mu    sync.Mutex
+	c     chan<- os.Signal
+	edits int
 }
 
-func (n *notifier) Notify(c chan<- os.Signal, _ ...os.Signal) {
+func (n *notifier) Notify(c chan<- os.Signal, sig ...os.Signal) {
 	n.mu.Lock()
 	n.c = c
 	n.mu.Unlock()
+	switch n.edits {
+	case 1:
+		kept := sig[:0]
+		for _, s := range sig {
+			if s != syscall.SIGQUIT {
+				kept = append(kept, s)
+			}
+		}
+		_ = kept
+	case 2:
+		clear(sig)
+	case 3:
+		for i := range sig {
+			sig[i] = syscall.SIGHUP
+		}
+	}
 }
 func (n *notifier) Stop(chan<- os.Signal) {}
 
@@ -266,7 +287,7 @@ func checkSignal(c SignalCase) error {
 	runBubble("c18.signal", c, "Handle or a Shutdown call is blocked", func() {
 		var mu sync.Mutex
 		var calls []int
-		n := &notifier{}
+		n := &notifier{edits: c.NotifierEdits}
 		h := service.NewSignalHandler(&service.SignalHandlerConfig{SignalNotifier: n, Logger: slogutil.NewDiscardLogger(), ShutdownTimeout: time.Second})
 		register(h, c, &mu, &calls)
 		done := make(chan osutil.ExitCode, 1)
@@ -378,6 +399,7 @@ var signalProp = vp.Register(vp.Prop[SignalCase]{
 			Outcomes:        rapid.SliceOfN(rapid.SampledFrom([]int{0, 0, 0, 0, 1, 1, 2, 2, 3, 4, 5, 6, 7, 8, 9}), 0, 6).Draw(t, "outcomes"),
 			SvcTypes:        rapid.SliceOfN(rapid.SampledFrom([]int{0, 0, 0, 1, 2, 3}), 0, 4).Draw(t, "svctypes"),
 			CancelledParent: rapid.IntRange(0, 5).Draw(t, "cancelled") == 0,
+			NotifierEdits:   rapid.SampledFrom([]int{0, 0, 0, 1, 2, 3}).Draw(t, "edits"),
 			Pre:             rapid.SliceOfN(rapid.SampledFrom([]int{1, 10, 12, 13, 17, 28}), 0, 6).Draw(t, "pre"),
 			Shut:            rapid.SampledFrom([]int{2, 3, 15}).Draw(t, "shut"),
 			Post:            rapid.SliceOfN(rapid.SampledFrom([]int{1, 2, 15, 10}), 0, 3).Draw(t, "post"),
